@@ -201,7 +201,13 @@ def _run_scripted(case: dict) -> list[str]:
         ep = AsyncStreamEndpoint(tr, proto, max_recv_size=case["maxrecv"])
         for call in case["calls"]:
             try:
-                p = await ep.recv_packet()
+                if call["t"] == "zero":
+                    # a receive under an already expired deadline: it may only give up at a suspension point, and a packet
+                    # that was taken out of the buffer must be returned, never dropped
+                    with _backend.timeout(0):
+                        p = await ep.recv_packet()
+                else:
+                    p = await ep.recv_packet()
                 lines.append(sd.pkt_line(p))
             except _Stuck:
                 lines.append("stuck")
@@ -215,7 +221,13 @@ def _run_scripted(case: dict) -> list[str]:
 
 
 def _run_tcp(case: dict) -> list[str]:
-    """TCPNetworkClient / AsyncTCPNetworkClient over loopback; the peer writes the data events and closes at `eof`"""
+    """TCPNetworkClient / AsyncTCPNetworkClient over loopback; the peer writes the data events and closes at `eof`:
+    gracefully (FIN) or abortively (`close` = "rst": SO_LINGER 0, the kernel sends RST; on Linux the bytes already queued at
+    the receiver stay readable).  With `settle` the calls start only after the peer has closed, so every call kind is
+    deterministic: recv (watchdog 5 s), recv with timeout 0, iter_received_packets with timeout 0 / > 0."""
+    import struct as _st
+    import time as _time
+
     from easynetwork.clients.async_tcp import AsyncTCPNetworkClient
     from easynetwork.clients.tcp import TCPNetworkClient
 
@@ -226,6 +238,9 @@ def _run_tcp(case: dict) -> list[str]:
     port = srv.getsockname()[1]
     events = _events(case)
     go = threading.Event()
+    closed_ev = threading.Event()
+    rst = case.get("close") == "rst"
+    settle = bool(case.get("settle")) or rst
 
     def peer():
         conn, _ = srv.accept()
@@ -236,21 +251,39 @@ def _run_tcp(case: dict) -> list[str]:
             elif ev[0] == "eof":
                 break
         go.wait(5)
+        if rst:
+            _time.sleep(0.05)      # everything sent is queued at the receiver before the reset is generated
+            conn.setsockopt(socket.SOL_SOCKET, socket.SO_LINGER, _st.pack("ii", 1, 0))
         conn.close()
+        closed_ev.set()
 
     th = threading.Thread(target=peer, daemon=True)
     th.start()
     lines: list[str] = []
-    ncalls = len(case["calls"])
+    calls = case["calls"]
+
+    def kind(call: dict) -> tuple[str, str]:
+        return call.get("k", "recv"), (call["t"] if settle else "none")
+
     try:
         if case["api"] == "tcp":
             with TCPNetworkClient(("127.0.0.1", port), proto, max_recv_size=case["maxrecv"]) as client:
                 go.set()
+                if settle:
+                    closed_ev.wait(5)
+                    _time.sleep(0.05)
                 seen_eos = False
-                for _ in range(ncalls):
+                for call in calls:
+                    k, t = kind(call)
+                    tmo = {"none": 5.0 if not seen_eos else 0.5, "pos": 5.0 if not seen_eos else 0.5, "zero": 0}[t]
                     try:
-                        p = client.recv_packet(timeout=5.0 if not seen_eos else 0.5)
-                        lines.append(sd.pkt_line(p))
+                        if k == "iter":
+                            for p in client.iter_received_packets(timeout=tmo):
+                                lines.append(sd.pkt_line(p))
+                            lines.append("iter-end")
+                        else:
+                            p = client.recv_packet(timeout=tmo)
+                            lines.append(sd.pkt_line(p))
                     except Exception as e:  # noqa: BLE001
                         r = _classify(e, True)
                         lines.append(r)
@@ -259,11 +292,28 @@ def _run_tcp(case: dict) -> list[str]:
             async def main():
                 async with AsyncTCPNetworkClient(("127.0.0.1", port), proto, max_recv_size=case["maxrecv"]) as client:
                     go.set()
+                    if settle:
+                        while not closed_ev.is_set():
+                            await asyncio.sleep(0.005)
+                        await asyncio.sleep(0.05)
                     seen_eos = False
-                    for _ in range(ncalls):
+                    backend = client.backend()
+                    for call in calls:
+                        k, t = kind(call)
                         try:
-                            p = await asyncio.wait_for(client.recv_packet(), 5.0 if not seen_eos else 0.5)
-                            lines.append(sd.pkt_line(p))
+                            if k == "iter":
+                                async def drain_iter():
+                                    async for p in client.iter_received_packets(timeout=0 if t == "zero" else (5.0 if not seen_eos else 0.5)):
+                                        lines.append(sd.pkt_line(p))
+                                await asyncio.wait_for(drain_iter(), 20.0)
+                                lines.append("iter-end")
+                            elif t == "zero":
+                                with backend.timeout(0):
+                                    p = await client.recv_packet()
+                                lines.append(sd.pkt_line(p))
+                            else:
+                                p = await asyncio.wait_for(client.recv_packet(), 5.0 if not seen_eos else 0.5)
+                                lines.append(sd.pkt_line(p))
                         except Exception as e:  # noqa: BLE001
                             r = _classify(e, True)
                             lines.append(r)
@@ -285,6 +335,8 @@ def run_real(case: dict) -> list[str]:
 def model_input(case: dict, real: list[str]):
     if case["api"] in ("tcp", "atcp"):
         return None
+    if case["api"] == "async" and any(c["t"] == "zero" for c in case["calls"]):
+        return None       # expired-deadline receives on the asynchronous endpoint: judged by the oracle only
     spec, path = case["spec"], case["path"]
     head = sers.model_head(spec, path, case["maxrecv"])
     if head is None:
@@ -349,7 +401,7 @@ def oracle(case: dict, real: list[str]) -> str | None:
     if any(ln.startswith(("harness-exc", "exc ")) for ln in real):
         return "unexpected exception: " + next(ln for ln in real if ln.startswith(("harness-exc", "exc ")))
     exp, closed = _expected(case)
-    outs = [ln for ln in real if not ln.startswith("nreads ")]
+    outs = [ln for ln in real if not ln.startswith("nreads ") and ln != "iter-end"]
     nreads = [int(ln.split()[1]) for ln in real if ln.startswith("nreads ")]
     items = [ln for ln in outs if ln.startswith(("pkt ", "err "))]
     if items != exp[:len(items)]:
@@ -362,7 +414,10 @@ def oracle(case: dict, real: list[str]) -> str | None:
         if case["api"] in ("sync", "async") and not any(e[0] == "reset" for e in case["events"]):
             if not closed:
                 return "end-of-stream reported although the peer has not closed"
-        if closed and before != exp and not any(e[0] in ("reset",) for e in case["events"]):
+        # an abortive close (RST) may destroy data that was received but not yet read (TCP semantics; asyncio reports the
+        # reset at once): the property speaks of the peer closing the stream, so completeness is demanded for FIN only;
+        # order, exactly-once and stickiness are demanded in every case
+        if closed and before != exp and not any(e[0] in ("reset",) for e in case["events"]) and case.get("close") != "rst":
             return f"end-of-stream reported after {len(before)} of {len(exp)} complete packets"
         after = outs[i:]
         if any(o != "eos" for o in after):
@@ -373,7 +428,7 @@ def oracle(case: dict, real: list[str]) -> str | None:
 
 
 def nontrivial(case: dict, real: list[str]) -> str | None:
-    outs = [ln for ln in real if not ln.startswith("nreads ")]
+    outs = [ln for ln in real if not ln.startswith("nreads ") and ln != "iter-end"]
     tags = []
     if outs.count("eos") >= 2:
         tags.append("sticky")
@@ -451,8 +506,19 @@ def _gen_case(rng, api: str) -> dict:
         events.append(["reset"])
     ncalls = len(packets) + rng.randint(1, 5)
     calls = [{"t": rng.choice(["none", "pos", "zero"]) if api == "sync" else "none"} for _ in range(ncalls)]
-    return {"spec": spec, "path": path, "api": api, "events": events, "calls": calls,
+    case = {"spec": spec, "path": path, "api": api, "events": events, "calls": calls,
             "maxrecv": rng.choice([1, 2, 3, 8, 64, 16384]), "close_inside": close_inside}
+    if api == "async" and rng.random() < 0.3:
+        # receives under an already expired deadline (backend.timeout(0)), oracle only
+        case["calls"] = [{"t": rng.choice(["none", "zero", "zero"])} for _ in range(ncalls + 2)] + [{"t": "none"}] * (len(packets) + 2)
+    if api in ("tcp", "atcp") and rng.random() < 0.7:
+        # the calls start after the peer has closed (FIN or RST): every kind of call is deterministic then
+        case["settle"] = True
+        case["close"] = rng.choice(["fin", "rst"])
+        case["calls"] = ([{"k": rng.choice(["recv", "recv", "iter"]), "t": rng.choice(["none", "pos", "zero", "zero"])}
+                          for _ in range(rng.randint(1, len(packets) + 3))]
+                         + [{"k": "recv", "t": "none"}] * (len(packets) + 3))
+    return case
 
 
 def corpus() -> list[dict]:
@@ -470,6 +536,23 @@ def corpus() -> list[dict]:
             # two packets in one read, zero timeouts
             out.append({"spec": crlf, "path": path, "api": api, "events": [["data", "610d0a620d0a"], ["eof"]],
                         "calls": [{"t": "zero"}] * 4, "maxrecv": 64, "close_inside": False})
+    # TCP clients: three packets queued at the receiver, then the peer resets the connection; then mixed call kinds
+    lf = {"k": "line", "newline": "LF", "keep_end": False, "encoding": "ascii", "limit": 64}
+    for api in ("tcp", "atcp"):
+        for path in ("copy", "buffered"):
+            for close in ("rst", "fin"):
+                out.append({"spec": lf, "path": path, "api": api, "events": [["data", "410a420a430a"], ["eof"]], "settle": True,
+                            "close": close, "maxrecv": 16384, "close_inside": False,
+                            "calls": [{"k": "recv", "t": "none"}, {"k": "recv", "t": "zero"}, {"k": "iter", "t": "zero"}]
+                                     + [{"k": "recv", "t": "none"}] * 4})
+                out.append({"spec": lf, "path": path, "api": api, "events": [["data", "410a420a430a"], ["data", "440a"], ["eof"]],
+                            "settle": True, "close": close, "maxrecv": 4, "close_inside": False,
+                            "calls": [{"k": "iter", "t": "zero"}] + [{"k": "recv", "t": "none"}] * 6})
+    # asynchronous endpoint: receives under an expired deadline while complete packets are buffered
+    for path in ("copy", "buffered"):
+        out.append({"spec": crlf, "path": path, "api": "async", "events": [["data", "610d0a620d0a630d0a"], ["data", "640d0a"], ["eof"]],
+                    "calls": [{"t": "none"}, {"t": "zero"}, {"t": "zero"}, {"t": "zero"}] + [{"t": "none"}] * 4,
+                    "maxrecv": 64, "close_inside": False})
     return out
 
 
@@ -477,7 +560,7 @@ def generate(rng, tier: str, boost: int):
     n = (2500 if tier == "quick" else 60000) * boost
     for _ in range(n):
         yield _gen_case(rng, rng.choice(["sync", "sync", "async"]))
-    for _ in range((24 if tier == "quick" else 300) * boost):
+    for _ in range((40 if tier == "quick" else 400) * boost):
         yield _gen_case(rng, rng.choice(["tcp", "atcp"]))
 
 
